@@ -138,7 +138,11 @@ def brk_parse(rng: Rng, text: str) -> str:
 
 
 def brk_tmpl_undefined(rng: Rng, text: str) -> str:
-    return text.rstrip("\n") + "\n;\n\nSELECT {{ undefined_vsim_var }} AS x\nFROM tbl\n"
+    if rng.chance(0.4):
+        # renders to nothing in a place where the statement is then unparsable too
+        return text.rstrip("\n") + "\n;\n\nSELECT {{ undefined_vsim_var }} AS x\nFROM tbl\n"
+    # renders to nothing where the rest still parses: the templating error is the only error
+    return text.rstrip("\n") + "\n;\n\nSELECT a\nFROM tbl\nWHERE a > 1 {{ undefined_vsim_var }}\n"
 
 
 def brk_tmpl_fatal(rng: Rng, text: str) -> str:
